@@ -100,9 +100,16 @@ def run(res, tier, seed):
     form_lines += ["    ret"]
     form_file = "\n".join(form_lines) + "\n"
     base.append(form_file)
+    # pseudo-instructions applied to known constants of either sign, the result deciding which environment
+    # call follows: the pseudo spelling and its official expansion fold to the same value
+    const_files = []
+    for pz in ("seqz", "snez", "sltz", "sgtz", "neg", "not", "mv"):
+        for k_ in (-5, 0, 7, -2147483648):
+            const_files.append(f"main:\n    li t0, {k_}\n    {pz} t1, t0\n    addi a7, t1, 1\n    li a0, 42\n    ecall\n    li a7, 10\n    ecall\n")
+    base += const_files
     pairs = []
     for s in base:
-        for _ in range(6 if s is form_file else 2):
+        for _ in range(6 if (s is form_file or s in const_files) else 2):
             pairs.append((s, rewrite.rewrite_program(rng, s)))
     inputs = []
     for s, t in pairs:
